@@ -35,7 +35,7 @@ LABELV = st.one_of(st.integers(-10**9, 10**9), st.text(max_size=5), st.booleans(
                    st.floats(allow_nan=False, allow_infinity=False, width=32))
 
 
-def scenario() -> Any:
+def scenario(big: bool = False) -> Any:
     def fin(d: Dict[str, Any]) -> Dict[str, Any]:
         msgs = cm.sort_msgs(d["msgs"])
         for k, m in enumerate(msgs):
@@ -75,16 +75,16 @@ def scenario() -> Any:
         "clock_step": st.sampled_from([0, 0, 0, -5.0, 3600.0, -0.5]),   # the wall clock jumps while this task runs
     })).map(lambda t: {**t[0], **t[1]})
     return st.fixed_dictionaries({
-        "A": st.integers(1, 3),
-        "msgs": st.lists(msg, min_size=1, max_size=7),
-        "fail_saves": st.sets(st.integers(0, 6), max_size=3),
+        "A": st.integers(1, 5 if big else 3),
+        "msgs": st.lists(msg, min_size=1, max_size=12 if big else 7),
+        "fail_saves": st.sets(st.integers(0, 11 if big else 6), max_size=3),
         "save_latency": st.sampled_from([0.0, 0.0, 0.05]),
     }).map(fin)
 
 
 def parts(tier: str) -> List[Part]:
     if tier == "thorough":
-        return [Part("executions", "given", shards=16, examples=5000, strategy=scenario, soft_deadline_s=1500)]
+        return [Part("executions", "given", shards=16, examples=12000, strategy=lambda: scenario(True), soft_deadline_s=3000)]
     return [Part("executions", "given", shards=8, examples=600, strategy=scenario, soft_deadline_s=120)]
 
 
